@@ -70,6 +70,20 @@ CHECKS = {
         "fault enumeration (exhaustive per-attempt reactions) + Hypothesis plans on a virtual clock, trace invariants",
         "DESIGN.md 4/C05",
     ),
+    "C01": (
+        "fault_enumeration",
+        "Real AshProtocol against an independently written conforming NCP endpoint (window 1..3) over a FIFO line with "
+        "per-frame fates on a virtual clock: all 5^d assignments of {deliver, drop, detectable corruption, duplicate, stall "
+        "3.5 s} to the first d frames in emission order (d=4 quick, 6 thorough) for each window, plus Hypothesis plans of up to "
+        "40 overlapping sends from both ends with caller cancellations at generated instants (frame numbers wrap several "
+        "times), plus plans whose faults hit only transmissions of a cancelled payload. History oracle: deliveries on each "
+        "side are an in-order duplicate-free subsequence of the other side's submissions, every successful send was delivered, "
+        "and where no fault excuses it every non-cancelled send succeeds.",
+        "Trusted: vlib/refash.RefNcp (self-tested RefNcp<->RefNcp under the same oracle on every run) and vlib/line.py. "
+        "Beyond depth d fault sequences are sampled.",
+        "fault enumeration to a depth bound + Hypothesis fault/schedule plans against an independent peer; history invariants",
+        "DESIGN.md 4/C01",
+    ),
 }
 
 NOT_YET = "check not built yet in this session (planned, see DESIGN.md section 4)"
